@@ -91,6 +91,13 @@ impl Default for Tags {
 #[derive(Debug)]
 #[cfg_attr(feature = "serde", derive(serde::Serialize, serde::Deserialize))]
 enum BranchKind {
+    // The condition of the conditional is still being evaluated.
+    //
+    // While the innermost conditional is in this state, \else, \or and \fi are not expanded.
+    // This is the case if_limit=if_code of TeX.2021.510, in which Knuth's TeX inserts a \relax:
+    // in \ifnum 1=1\else the second number ends in front of the \else,
+    // and the \else belongs to the \ifnum.
+    Condition,
     // The true branch of an if conditional.
     True,
     // The false branch of an if conditional, or the default branch of a switch statement.
@@ -106,12 +113,71 @@ struct Branch {
     kind: BranchKind,
 }
 
-fn push_branch<S: HasComponent<Component>>(input: &mut vm::ExpansionInput<S>, branch: Branch) {
-    input.state().component().branches.borrow_mut().push(branch)
-}
-
 fn pop_branch<S: HasComponent<Component>>(input: &mut vm::ExpansionInput<S>) -> Option<Branch> {
     input.state().component().branches.borrow_mut().pop()
+}
+
+// Starts a conditional whose condition is evaluated next.
+//
+// Returns the position of the conditional in the stack.
+// When the condition has been evaluated, other conditionals may be above it in the stack:
+// those that were started by expansion while the condition was being read,
+// as in \ifnum 1=1\iftrue a\fi b\fi.
+fn begin_conditional<S: HasComponent<Component>>(
+    token: token::Token,
+    input: &mut vm::ExpansionInput<S>,
+) -> usize {
+    let mut branches = input.state().component().branches.borrow_mut();
+    branches.push(Branch {
+        _token: token,
+        kind: BranchKind::Condition,
+    });
+    branches.len() - 1
+}
+
+// Continues the conditional at the provided position of the stack in a branch of the provided kind,
+// or ends the conditional if no kind is provided (TeX.2021.497 change_if_limit).
+//
+// If `skipped` is true the input has been skipped up to an \else, \or or \fi of this conditional.
+// Conditionals started while its condition was being read have ended in the skipped text.
+fn end_condition<S: HasComponent<Component>>(
+    input: &mut vm::ExpansionInput<S>,
+    index: usize,
+    kind: Option<BranchKind>,
+    skipped: bool,
+) {
+    let mut branches = input.state().component().branches.borrow_mut();
+    if skipped {
+        branches.truncate(index + 1);
+    }
+    match kind {
+        None => branches.truncate(index),
+        Some(kind) => {
+            if let Some(branch) = branches.get_mut(index) {
+                branch.kind = kind;
+            }
+        }
+    }
+}
+
+// Number of conditionals above the provided position of the stack.
+fn num_conditionals_above<S: HasComponent<Component>>(
+    input: &mut vm::ExpansionInput<S>,
+    index: usize,
+) -> i32 {
+    let n = input.state().component().branches.borrow().len();
+    n.saturating_sub(index + 1).try_into().unwrap_or(i32::MAX)
+}
+
+// Returns true if the condition of the innermost conditional is still being evaluated.
+fn is_evaluating_condition<S: HasComponent<Component>>(input: &mut vm::ExpansionInput<S>) -> bool {
+    matches!(
+        input.state().component().branches.borrow().last(),
+        Some(Branch {
+            kind: BranchKind::Condition,
+            ..
+        })
+    )
 }
 
 static IF_TAG: command::StaticTag = command::StaticTag::new();
@@ -121,16 +187,10 @@ static FI_TAG: command::StaticTag = command::StaticTag::new();
 
 // The `true_case` function is executed whenever a conditional evaluates to true.
 fn true_case<S: HasComponent<Component>>(
-    token: token::Token,
+    index: usize,
     input: &mut vm::ExpansionInput<S>,
 ) -> txl::Result<()> {
-    push_branch(
-        input,
-        Branch {
-            _token: token,
-            kind: BranchKind::True,
-        },
-    );
+    end_condition(input, index, Some(BranchKind::True), false);
     Ok(())
 }
 
@@ -139,10 +199,11 @@ fn true_case<S: HasComponent<Component>>(
 // The function scans forward in the input stream, discarding all tokens, until it encounters
 // either a \else or \fi command.
 fn false_case<S: HasComponent<Component>>(
-    original_token: token::Token,
+    index: usize,
     input: &mut vm::ExpansionInput<S>,
 ) -> txl::Result<()> {
-    let mut depth = 0;
+    // Conditionals that were started while the condition was being read end in the skipped text.
+    let mut depth = num_conditionals_above(input, index);
     loop {
         let token = input
             .unexpanded()
@@ -150,13 +211,7 @@ fn false_case<S: HasComponent<Component>>(
         if let token::Value::CommandRef(command_ref) = &token.value() {
             let tag = input.commands_map().get_tag(command_ref);
             if tag == Some(input.state().component().tags.else_tag) && depth == 0 {
-                push_branch(
-                    input,
-                    Branch {
-                        _token: original_token,
-                        kind: BranchKind::Else,
-                    },
-                );
+                end_condition(input, index, Some(BranchKind::Else), true);
                 return Ok(());
             }
             if tag == Some(input.state().component().tags.if_tag) {
@@ -165,6 +220,7 @@ fn false_case<S: HasComponent<Component>>(
             if tag == Some(input.state().component().tags.fi_tag) {
                 depth -= 1;
                 if depth < 0 {
+                    end_condition(input, index, None, true);
                     return Ok(());
                 }
             }
@@ -208,9 +264,10 @@ pub trait Condition<S: HasComponent<Component>> {
     fn build_if_command() -> command::BuiltIn<S> {
         let primitive_fn =
             |token: token::Token, input: &mut vm::ExpansionInput<S>| -> txl::Result<()> {
+                let index = begin_conditional(token, input);
                 match Self::evaluate(input)? {
-                    true => true_case(token, input),
-                    false => false_case(token, input),
+                    true => true_case(index, input),
+                    false => false_case(index, input),
                 }
             };
         let mut cmd = command::BuiltIn::new_expansion(primitive_fn).with_tag(IF_TAG.get());
@@ -287,20 +344,15 @@ fn if_case_primitive_fn<S: HasComponent<Component>>(
     ifcase_token: token::Token,
     input: &mut vm::ExpansionInput<S>,
 ) -> txl::Result<()> {
-    // TODO: should we reading the number from the unexpanded stream? Probably!
+    let index = begin_conditional(ifcase_token, input);
     let total_cases_to_skip = i32::parse(input)?;
     if total_cases_to_skip == 0 {
-        push_branch(
-            input,
-            Branch {
-                _token: ifcase_token,
-                kind: BranchKind::Switch,
-            },
-        );
+        end_condition(input, index, Some(BranchKind::Switch), false);
         return Ok(());
     }
     let mut cases_left_to_skip = total_cases_to_skip;
-    let mut depth = 0;
+    // Conditionals that were started while the number was being read end in the skipped text.
+    let mut depth = num_conditionals_above(input, index);
     loop {
         let token = input.unexpanded().next_or_err(IfCaseEndOfInputError {
             total_cases_to_skip,
@@ -312,24 +364,12 @@ fn if_case_primitive_fn<S: HasComponent<Component>>(
                 // For negative case numbers this never reaches zero (and must not overflow).
                 cases_left_to_skip = cases_left_to_skip.saturating_sub(1);
                 if cases_left_to_skip == 0 {
-                    push_branch(
-                        input,
-                        Branch {
-                            _token: ifcase_token,
-                            kind: BranchKind::Switch,
-                        },
-                    );
+                    end_condition(input, index, Some(BranchKind::Switch), true);
                     return Ok(());
                 }
             }
             if tag == Some(input.state().component().tags.else_tag) && depth == 0 {
-                push_branch(
-                    input,
-                    Branch {
-                        _token: ifcase_token,
-                        kind: BranchKind::Else,
-                    },
-                );
+                end_condition(input, index, Some(BranchKind::Else), true);
                 return Ok(());
             }
             if tag == Some(input.state().component().tags.if_tag) {
@@ -338,6 +378,7 @@ fn if_case_primitive_fn<S: HasComponent<Component>>(
             if tag == Some(input.state().component().tags.fi_tag) {
                 depth -= 1;
                 if depth < 0 {
+                    end_condition(input, index, None, true);
                     return Ok(());
                 }
             }
@@ -385,6 +426,10 @@ fn or_primitive_fn<S: HasComponent<Component>>(
     ifcase_token: token::Token,
     input: &mut vm::ExpansionInput<S>,
 ) -> txl::Result<()> {
+    if is_evaluating_condition(input) {
+        input.back_unexpandable(ifcase_token);
+        return Ok(());
+    }
     let branch = pop_branch(input);
     // For an or command to be valid, we must be in a switch statement
     let is_valid = match branch {
@@ -445,6 +490,10 @@ fn else_primitive_fn<S: HasComponent<Component>>(
     else_token: token::Token,
     input: &mut vm::ExpansionInput<S>,
 ) -> txl::Result<()> {
+    if is_evaluating_condition(input) {
+        input.back_unexpandable(else_token);
+        return Ok(());
+    }
     let branch = pop_branch(input);
     // For else token to be valid, we must be in the true branch of a conditional
     let is_valid = match branch {
@@ -508,6 +557,10 @@ fn fi_primitive_fn<S: HasComponent<Component>>(
     token: token::Token,
     input: &mut vm::ExpansionInput<S>,
 ) -> txl::Result<()> {
+    if is_evaluating_condition(input) {
+        input.back_unexpandable(token);
+        return Ok(());
+    }
     let branch = pop_branch(input);
     // For a \fi primitive to be valid, we must be in a conditional.
     // Note that we could be in the false branch: \iftrue\else\fi
@@ -621,6 +674,39 @@ mod tests {
                 ifcase_nested,
                 r"\ifcase 1 a\or b\ifcase 1 c\or d\or e\else f\fi g\or h\fi i",
                 r"bdgi"
+            ),
+            (ifnum_ended_by_else_true, r"\ifnum 1=1\else a\fi b", r"b"),
+            (ifnum_ended_by_else_false, r"\ifnum 1=2\else a\fi b", r"ab"),
+            (ifnum_ended_by_fi, r"\ifnum 1<2\fi b", r"b"),
+            (ifodd_ended_by_fi, r"\ifodd 3\fi b", r"b"),
+            (ifodd_ended_by_else, r"\ifodd 2\else a\fi b", r"ab"),
+            (ifcase_ended_by_or_0, r"\ifcase 0\or a\else b\fi c", r"c"),
+            (ifcase_ended_by_or_1, r"\ifcase 1\or a\else b\fi c", r"ac"),
+            (ifcase_ended_by_else, r"\ifcase 1\else a\fi b", r"ab"),
+            (
+                ifnum_ended_by_else_nested_1,
+                r"\iftrue\ifnum 0>1\else a\fi b\else c\fi d",
+                r"abd"
+            ),
+            (
+                ifnum_ended_by_else_nested_2,
+                r"\iffalse\ifnum 0>1\else a\fi b\else c\fi d",
+                r"cd"
+            ),
+            (
+                conditional_in_condition_true,
+                r"\ifnum 1=1\ifcase 0 a\or b\fi c\else d\fi e",
+                r"ace"
+            ),
+            (
+                conditional_in_condition_false,
+                r"\ifnum 1=2\ifcase 0 a\or b\fi c\else d\fi e",
+                r"de"
+            ),
+            (
+                conditional_in_ifcase_number,
+                r"\ifcase 1\iftrue a\or b\fi c\or d\fi e",
+                r"de"
             ),
         ),
         serde_tests(
